@@ -32,7 +32,7 @@ func TestC20MainLogger(t *testing.T) {
 	route.SetTable(tbl)
 	hx.Check(t, hx.Scale(60, 600), func(t *rapid.T) {
 		// literal pieces with upper-case letters, JSON keys, and fields in between
-		lits := []string{`{"Method":"`, `","StatusCode":`, `,"URI":"`, `"}`, "REQ ", " -> ", "Status=", " [Fabio] ", "ÄÖ ", " ; "}
+		lits := []string{`{"Method":"`, `","StatusCode":`, `,"URI":"`, `"}`, "REQ ", " -> ", "Status=", " [Fabio] ", "ÄÖ ", " ; ", `"`, `'`, `"quoted" `}
 		fields := map[string]string{"$request_method": "GET", "$response_status": "200", "$request_uri": "/some/Path?Q=1", "$request_proto": "HTTP/1.1", "$upstream_service": "web"}
 		var names []string
 		for k := range fields {
@@ -55,7 +55,17 @@ func TestC20MainLogger(t *testing.T) {
 			format = rapid.SampledFrom([]string{"common", "combined"}).Draw(t, "namedformat")
 			want = ""
 		}
-		cfg, err := config.Load([]string{"fabio", "-log.access.target", "stdout", "-log.access.format", format}, nil)
+		// the format comes from the command line, the environment or a properties file
+		args, env := []string{"fabio", "-log.access.target", "stdout"}, []string{}
+		switch rapid.SampledFrom([]string{"cmdline", "env", "FABIO_env"}).Draw(t, "source") {
+		case "cmdline":
+			args = append(args, "-log.access.format", format)
+		case "env":
+			env = append(env, "log_access_format="+format)
+		default:
+			env = append(env, "FABIO_LOG_ACCESS_FORMAT="+format)
+		}
+		cfg, err := config.Load(args, env)
 		if err != nil {
 			t.Fatalf("config rejected: %v (format %q)", err, format)
 		}
